@@ -22,4 +22,5 @@ class Check(PropertyCheck):
     def families(self, rng, tier):
         return [("formulas.compute_swap", fam_swap.swap_cases(rng.sub("swap_cases"), tier)),
                 ("formulas.compute_swap.monotone", fam_swap.mono_cases(rng.sub("mono_cases"), tier)),
-                ("world.commission", fam_world.commission_histories(rng.sub("commission_histories"), tier))]
+                ("world.commission", fam_world.commission_histories(rng.sub("commission_histories"), tier)),
+                ("world.deep_pool", fam_world.deep_pool_histories(rng.sub("deep_pool"), tier))]
